@@ -212,7 +212,7 @@ def _task(arg):
     modname, lengths, tier = arg
     try:
         entries = [e for e in catalog() if e['src'] == modname and e['fn'] != 'convert']
-        sw = accept.AcceptSweep(modname, lengths, checker_factory(modname, entries), tier, 300 if tier == 'quick' else 1800, 'C08')
+        sw = accept.AcceptSweep(modname, lengths, checker_factory(modname, entries), tier, 200 if tier == 'quick' else 1800, 'C08')
         return sw.run()
     except Exception as e:      # noqa: B902
         import traceback
@@ -347,9 +347,9 @@ def check(prop, tier, args):
     srcs = sorted({e['src'] for e in cat if e['fn'] != 'convert'})
     if args.modules:
         srcs = [m for m in srcs if m in args.modules]
-    units = accept.accepting_units(modules=srcs if args.modules else None)
+    units = accept.accepting_units(modules=srcs)
     items = [(m, sorted({n for o, n in units.get(m, []) if n != 'long'}), tier) for m in srcs if m in units]
-    res = accept.run_modules(_task, items, 700 if tier == 'quick' else 4000)
+    res = accept.run_modules(_task, items, 300 if tier == 'quick' else 4000)
     for m in sorted(res):
         r = res[m]
         for e in cat:
